@@ -179,7 +179,8 @@ def run(repo, rep, tier):
                         break
                 keyed = any(isinstance(x, ast.Attribute) and x.attr in ("entries", "headers") for x in ast.walk(it_))
                 tests_key = any(isinstance(c, ast.Compare) and any(isinstance(x, ast.Attribute) and x.attr in ("key", "index") for x in ast.walk(c)) for c in ast.walk(lp))
-                if keyed and tests_key and isinstance(it_, ast.Subscript) and isinstance(it_.slice, ast.Slice):
+                # (a slice without bounds, ``entries[::-1]``, is the whole list in another order)
+                if keyed and tests_key and isinstance(it_, ast.Subscript) and isinstance(it_.slice, ast.Slice) and (it_.slice.lower is not None or it_.slice.upper is not None):
                     windows.append((lp, fn_.name, U(it_)))
     rep.ob("C06.R1", windows[0][0] if windows else rt, "no search by key looks only at a window of positions", not windows,
            "" if not windows else f"{windows[0][1]}: the search runs over `{windows[0][2][:60]}`: that assumes entry k sits among the first k positions; in another order the entry is not found",
@@ -296,6 +297,8 @@ def run(repo, rep, tier):
 
 
 VARIANTS = [
+    T("rich-text-search-step-slice", "model.py", "        for entry in rich_text_table.entries:  # pragma: no branch  # noqa: RET503",
+      "        for entry in rich_text_table.entries[::-1]:  # pragma: no branch  # noqa: RET503"),
     M("rich-text-search-in-key-prefix", "model.py", "        for entry in rich_text_table.entries:  # pragma: no branch  # noqa: RET503",
       "        for entry in reversed(rich_text_table.entries[:string_key]):  # pragma: no branch  # noqa: RET503", "C06.R1"),
     T("rich-text-search-reversed", "model.py", "        for entry in rich_text_table.entries:  # pragma: no branch  # noqa: RET503",
